@@ -47,7 +47,7 @@ def rule_helpers(ctx: Ctx) -> None:
         if len(tgt) == 2:
             nm, md = tgt
             tests = {re.sub(r'\s+', '', norm(t)) for t in g.ifs}
-            leaf = {f'len(list({md}.children()))==0', f'notlist({md}.children())', f'len(list({md}.children()))<1', f'notany({md}.children())',
+            leaf = {f'len(list({md}.children()))==0', f'notlist({md}.children())', f'len(list({md}.children()))<1',
                     f'next({md}.children(),None)isNone'}
             ok = norm(g.iter) == f'{root}.named_modules()' and norm(lc.elt) == f'({nm}, {md})' and len(tests) == 1 and bool(tests & leaf)
     ctx.check(ok, 'REG-LEAF', f, 'leaves of named_modules()', 'get_flattened_modules',
